@@ -40,7 +40,7 @@ TRUSTED = [
 ]
 
 ERR_CODE = {"ImportError": 1, "ModuleNotFoundError": 2, "NameError": 3, "TypeError": 4, "SyntaxError": 5,
-            "IndentationError": 5, "AttributeError": 6, "ExportError": 6}
+            "IndentationError": 5, "AttributeError": 6, "ExportError": 6, "ValueError": 8}
 
 
 # ---------------------------------------------------------------- structured document generator
@@ -425,6 +425,20 @@ def guard_discriminator_ref_property(doc: dict, layout: tuple) -> bool:
     return False
 
 
+def guard_sunder_enum_value(doc: dict, layout: tuple) -> bool:
+    """F20e: an enum value that starts and ends with a single underscore (member name _X_)"""
+    def vals(x: Any):
+        if isinstance(x, dict):
+            if isinstance(x.get("enum"), list):
+                yield from x["enum"]
+            for v in x.values():
+                yield from vals(v)
+        elif isinstance(x, list):
+            for v in x:
+                yield from vals(v)
+    return any(isinstance(v, str) and re.fullmatch(r"_[^_](.*[^_])?_", v) for v in vals(doc))
+
+
 STREAMING = ("application/octet-stream", "text/event-stream", "application/x-ndjson")
 
 
@@ -531,14 +545,14 @@ def guard_repair_layout(doc: dict, layout: tuple) -> bool:   # F01f: add_import'
 # conjunct indices (Coq bit = index+1): 0 c_parses, 1 c_closed, 2 c_acyclic, 3 c_no_str_or, 4 c_no_shadow,
 #                                       5 c_no_ancestor_names, 6 c_paths, 7 c_static
 # fixed in /repo (their corpus witnesses stay and must now import cleanly): F01e 0981866, F20a 4164990;
-# fix wave (fixes/*.diff): F01b, F01c, F01f, F01g
+# fix wave: F01b 270aa99, F01c a43f53c, F01g 7041aaa, F01f f12b1ce, F06d 133c12b
 FINDINGS: dict[str, tuple] = {
     "F01a": (lambda c, m, f: c == "ImportError" and "partially initialized module" in m and "/models/" in m, 2, guard_ref_cycle),
-    "F06d": (lambda c, m, f: c == "ImportError" and re.search(r"cannot import name 'Error[13]\d\d' from '[\w.]*core'", m) is not None, 7, guard_non_error_status),
     "F13b": (lambda c, m, f: c == "SyntaxError" and "duplicate argument" in m and f.endswith("mocks/mock_client.py"), 0, guard_case_variant_tags),
     "F04c": (lambda c, m, f: c == "SyntaxError" and "duplicate argument" in m and "/endpoints/" in f, 0, guard_duplicate_param),
     "F01i": (lambda c, m, f: c == "ImportError" and "partially initialized module" in m and "/models/" in m, 2, guard_inline_name_collision),
     "F01j": (lambda c, m, f: c == "ModuleNotFoundError" and re.search(r"No module named '[\w.]*\.models\.\w+'", m) is not None and "/models/" in f, 1, guard_discriminator_ref_property),
+    "F20e": (lambda c, m, f: c == "ValueError" and "_sunder_ names" in m, 7, guard_sunder_enum_value),
     "F01h": (lambda c, m, f: c == "ModuleNotFoundError" and re.search(r"No module named '[\w.]*\.models\.\w+'", m) is not None and "/models/" in f, 1, guard_any_cycle),
 }
 FID_BIT = {fid: i + 1 for i, fid in enumerate(FINDINGS)}   # bit in the code handed to chk.decide
@@ -546,6 +560,7 @@ FID_BIT = {fid: i + 1 for i, fid in enumerate(FINDINGS)}   # bit in the code han
 F01I_DOC = json.loads('{"openapi": "3.0.3", "info": {"title": "T", "version": "1.0"}, "paths": {"/a": {"get": {"operationId": "getIt", "responses": {"200": {"description": "ok", "content": {"application/json": {"schema": {"$ref": "#/components/schemas/Pet"}}}}}}}}, "components": {"schemas": {"Item": {"allOf": [{"$ref": "#/components/schemas/Invoice"}, {"type": "object", "properties": {"title": {"type": "object", "additionalProperties": true}, "created_at": {"anyOf": [{"$ref": "#/components/schemas/Owner"}, {"$ref": "#/components/schemas/Invoice"}]}, "score": {"type": "string", "format": "date-time", "nullable": true}, "amount": {"type": "string", "format": "date"}, "parent": {"type": "object", "additionalProperties": {"$ref": "#/components/schemas/Owner"}}, "id": {"type": "number", "format": "double", "nullable": true}}, "required": ["created_at", "score", "amount"]}]}, "Owner": {"type": "object", "properties": {"parent": {"type": "object", "properties": {"updated": {"type": "number"}}}}, "description": "A thing."}, "Invoice": {"type": "string", "enum": ["v"]}}}}')
 
 WITNESSES: dict[str, tuple[dict, tuple]] = {
+    "F20e": (_w({"/a": {"get": _op(R("E"))}}, {"E": {"type": "string", "enum": ["_a_", "b"]}}), ("client", None)),
     "F01i": (F01I_DOC, ("client", None)),
     "F01a": (_w({"/a": {"get": _op(R("A"))}}, {"A": {"type": "object", "properties": {"b": R("B")}},
                                               "B": {"type": "object", "properties": {"a": R("A")}}}), ("client", None)),
@@ -912,6 +927,248 @@ def c_case(res: dict) -> str:
             f"{clist(cN(x) for x in obs)})")
 
 
+# ---------------------------------------------------------------- the generator skeleton of models/ (Model/GenModels.v)
+MNAMES = ["Alpha", "Beta", "Gamma", "Delta", "Epsilon", "Zeta", "Eta", "Theta"]
+
+
+def models_fragment_document(rng) -> dict:
+    """documents of the modelled fragment: objects whose fields are primitives, (optional) references to other
+    schemas, arrays / maps of references, optional self references and arrays of self; string enums; array and
+    primitive aliases; maps of references.  Reference edges between different schemas only point to LATER names
+    (a DAG); a second stream (cyc=True in the caller) adds back edges."""
+    names = rng.sample(MNAMES, rng.randint(2, 6))
+    sch: dict[str, Any] = {}
+    for i, n in enumerate(names):
+        later = names[i + 1:]
+        r = rng.random()
+        if r < 0.6 or not later:
+            props, req = {}, []
+            for k in range(rng.randint(1, 4)):
+                fn = f"{rng.choice(['first', 'second', 'third', 'other', 'main'])}_{'abcdefgh'[k]}"
+                q = rng.random()
+                if q < 0.25 or not later:
+                    props[fn] = {"type": rng.choice(["string", "integer", "boolean"])} if q < 0.2 else (
+                        {"type": "string", "format": "date-time"})
+                elif q < 0.50:
+                    props[fn] = R(rng.choice(later))
+                elif q < 0.65:
+                    props[fn] = {"type": "array", "items": R(rng.choice(later))}
+                elif q < 0.72:
+                    props[fn] = {"type": "array", "items": {"type": "string"}}
+                elif q < 0.86:
+                    props[fn] = R(n)                                   # optional self reference
+                    continue
+                else:
+                    props[fn] = {"type": "array", "items": R(n)}
+                if rng.random() < 0.4:
+                    req.append(fn)
+            sch[n] = {"type": "object", "properties": props, **({"required": req} if req else {})}
+        elif r < 0.75:
+            sch[n] = {"type": "string", "enum": rng.sample(["a", "b", "c", "d"], rng.randint(1, 3))}
+        elif r < 0.87:
+            sch[n] = {"type": "array", "items": R(rng.choice(later))}
+        elif r < 0.94:
+            sch[n] = {"type": "string", "format": rng.choice(["uuid", "date"])}
+        else:
+            sch[n] = {"type": "object", "additionalProperties": R(rng.choice(later))}
+    return _w({"/m": {"get": _op(R(names[0]))}}, sch)
+
+
+CAPTURED_IR: dict[str, Any] = {}
+
+
+def install_ir_capture() -> None:
+    """keep the schemas ModelsEmitter worked on (with their final class / module names) of the last generation"""
+    from pyopenapi_gen.emitters import models_emitter as me
+    if getattr(me.ModelsEmitter.emit, "_verif_wrapped", False):
+        return
+    orig = me.ModelsEmitter.emit
+
+    def emit(self, spec, output_root):
+        out = orig(self, spec, output_root)
+        CAPTURED_IR.clear()
+        CAPTURED_IR.update(self.parsed_schemas)
+        return out
+    emit._verif_wrapped = True  # type: ignore[attr-defined]
+    me.ModelsEmitter.emit = emit  # type: ignore[method-assign]
+
+
+def spec_from_ir(ir: dict, stems_on_disk: set[str]) -> list[dict] | None:
+    """IRSchema objects -> Model/GenModels.v `spec` (schemas sorted topologically when the reference graph allows it).
+    None = a schema outside the modelled fragment."""
+    emitted = [s for s in ir.values() if s.name and s.generation_name and s.final_module_stem in stems_on_disk]
+    by_name = {s.name: s for s in emitted}
+    idx: dict[str, int] = {}
+
+    def ty_of(p) -> Any:
+        if p is None:
+            return ("prim",)
+        if p.name and p.name in by_name:
+            return ("ref", p.name)
+        if p.type == "array":
+            return ("list", ty_of(p.items))
+        if p.type == "object" and not p.properties and hasattr(p.additional_properties, "type"):
+            return ("dict", ty_of(p.additional_properties))
+        if p.any_of or p.one_of or p.all_of:
+            raise KeyError("composition outside the fragment")
+        return ("prim",)
+
+    out = []
+    try:
+        for s in emitted:
+            if s.any_of or s.one_of or s.all_of or s.discriminator:
+                return None
+            if s.enum:
+                kind: Any = ("enum",)
+            elif s.type == "object" and s.properties:
+                fields = []
+                for pn, ps in sorted(s.properties.items(), key=lambda kv: (kv[0] not in s.required, kv[0])):
+                    req = pn in s.required
+                    fields.append({"name": pn, "ty": ty_of(ps), "opt": (not req) or bool(ps.is_nullable), "default": not req})
+                kind = ("obj", fields)
+            elif s.type == "object" and hasattr(s.additional_properties, "type"):
+                kind = ("wrapper", ty_of(s.additional_properties))
+            elif s.type == "object":
+                kind = ("wrapper", ("prim",))
+            elif s.type == "array":
+                kind = ("alias", ("list", ty_of(s.items)))
+            else:
+                kind = ("alias", ("prim",))
+            out.append({"name": s.name, "stem": s.final_module_stem, "cls": s.generation_name, "kind": kind})
+    except KeyError:
+        return None
+
+    def refs(t) -> list[str]:
+        return [t[1]] if t[0] == "ref" else refs(t[1]) if t[0] in ("list", "dict") else []
+
+    def krefs(k) -> list[str]:
+        return [r for f in k[1] for r in refs(f["ty"])] if k[0] == "obj" else refs(k[1]) if k[0] in ("alias", "wrapper") else []
+    # Kahn: dependencies first; self loops ignored; on a cycle the remaining schemas keep their order
+    todo = list(out)
+    done: list[dict] = []
+    while todo:
+        ready = [s for s in todo if all(r == s["name"] or r in {d["name"] for d in done} for r in krefs(s["kind"]))]
+        if not ready:
+            done += todo
+            break
+        done.append(ready[0])
+        todo.remove(ready[0])
+    for i, s in enumerate(done):
+        idx[s["name"]] = i
+    for s in done:
+        s["idx"] = idx
+    return done
+
+
+def c_ty(t, idx) -> str:
+    if t[0] == "prim":
+        return "TyPrim"
+    if t[0] == "ref":
+        return f"(TyRef ({idx[t[1]]})%nat)"
+    if t[0] == "list":
+        return f"(TyList {c_ty(t[1], idx)})"
+    return f"(TyDict {c_ty(t[1], idx)})"
+
+
+def c_spec(sp: list[dict]) -> str:
+    rows = []
+    for s in sp:
+        idx, k = s["idx"], s["kind"]
+        if k[0] == "obj":
+            kk = "(KObj " + clist(f"(mkFld {cs(f['name'])} {c_ty(f['ty'], idx)} {'true' if f['opt'] else 'false'} "
+                                    f"{'true' if f['default'] else 'false'})" for f in k[1]) + ")"
+        elif k[0] == "enum":
+            kk = "KEnum"
+        elif k[0] == "alias":
+            kk = f"(KAliasOf {c_ty(k[1], idx)})"
+        else:
+            kk = f"(KWrapper {c_ty(k[1], idx)})"
+        rows.append(f"(mkSch {cs(s['stem'])} {cs(s['cls'])} {kk})")
+    return clist(rows)
+
+
+def project_models(mods: list[dict], root: list[str], classes: set[str]) -> list[dict]:
+    """the reference structure of the extracted models/ modules (see the header of Model/GenModels.v)"""
+    mroot = root + ["models"]
+
+    def P(e: Any) -> Any:
+        k = e[0]
+        if k == "name":
+            return e if e[1] in classes else ("const",)
+        if k == "sub":
+            return ("sub", P(e[1]), [P(a) for a in e[2]])
+        if k == "or":
+            return ("or", P(e[1]), P(e[2]))
+        if k == "other":
+            return ("other", [P(a) for a in e[1]])
+        return e
+
+    def mentions(e: Any) -> bool:
+        k = e[0]
+        if k == "name":
+            return e[1] in classes
+        if k == "str":
+            return True
+        if k == "sub":
+            return mentions(e[1]) or any(mentions(a) for a in e[2])
+        if k == "or":
+            return mentions(e[1]) or mentions(e[2])
+        if k == "other":
+            return any(mentions(a) for a in e[1])
+        return False
+
+    out = []
+    chain = [root[:k] for k in range(1, len(root) + 1)]
+    for q in chain:
+        out.append({"path": q, "body": []})
+    for m in mods:
+        if m["path"][:len(mroot)] != mroot:
+            continue
+        body: list = []
+        for st in m["body"]:
+            k = st[0]
+            if k == "from":
+                if st[1][:len(mroot)] == mroot and len(st[1]) == len(mroot) + 1 and st not in body:
+                    body.append(st)
+            elif k == "all":
+                body.append(st)
+            elif k == "class":
+                items = [("field", it[1], P(it[2]), None if it[3] is None else ("const",))
+                         for it in st[3] if it[0] == "field" and mentions(it[2])]
+                body.append(("class", st[1], [P(h) for h in st[2]], items))
+            elif k == "alias":
+                body.append(("alias", st[1], P(st[2]), None if st[3] is None else ("const",)))
+            elif k == "broken":
+                body.append(st)
+        out.append({"path": m["path"], "body": body})
+    return out
+
+
+def models_case(doc: dict, lay: tuple) -> dict | None:
+    """generate, capture the IR, extract and project models/, build the spec; None when outside the fragment"""
+    install_ir_capture()
+    g = pipeline.generate(doc, package=lay[0], core_package=lay[1])
+    try:
+        if not g.ok:
+            return None
+        root = lay[0].split(".")
+        mdir = g.pkg_dir / "models"
+        stems = {p.stem for p in mdir.glob("*.py") if p.stem != "__init__"}
+        sp = spec_from_ir(dict(CAPTURED_IR), stems)
+        if sp is None or {s["stem"] for s in sp} != stems:
+            return None
+        mods = []
+        for pth in sorted(mdir.glob("*.py")):
+            cur, is_pkg = module_name(pth.relative_to(g.root))
+            mods.append({"path": cur, "body": extract_module(pth.read_text(), cur, is_pkg)})
+        proj = project_models(mods, root, {s["cls"] for s in sp})
+        coq = (f"(({cpath(root)}, {c_spec(sp)}), {clist(c_mod(m['path'], m['body']) for m in proj)})")
+        return {"input": {"doc": doc, "layout": list(lay)}, "obs": {"schemas": [[s["stem"], s["cls"], s["kind"][0]] for s in sp]},
+                "oracle_fail": [], "_coq": coq}
+    finally:
+        g.cleanup()
+
+
 def main(chk: Check, replay: dict | None = None) -> int:
     if replay is not None:
         i = replay["input"]
@@ -1025,6 +1282,45 @@ def main(chk: Check, replay: dict | None = None) -> int:
         dec_codes.append(out)
     chk.decide(dec_cases, dec_codes if codes is not None else None, {b: f for f, b in FID_BIT.items()},
                "root cause attribution (signature x pkg_ok conjunct x guard)")
+    # (3) the generator skeleton of models/ (Model/GenModels.v) vs the projected extracted skeleton, and the instance
+    #     of C01_models_partial on every acyclic spec: pkg_ok_with (models_order) (gen_models_skeleton spec) = true
+    import random as _random
+    mrng = _random.Random(f"models:{chk.seed}")
+    mcases = []
+    n_models = 120 if chk.thorough else 24
+    outside = 0
+    for k in range(n_models):
+        d = models_fragment_document(mrng)
+        if k % 6 == 5:      # a back edge: the reference graph is no longer acyclic (the guard of F01a fails)
+            names = list(d["components"]["schemas"])
+            objs = [n for n in names if d["components"]["schemas"][n].get("properties") is not None]
+            if len(objs) >= 2:
+                d["components"]["schemas"][objs[-1]]["properties"]["back_z"] = R(objs[0])
+        c = models_case(d, LAYOUTS[k % 3])
+        if c is None:
+            outside += 1
+        else:
+            mcases.append(c)
+    mcodes = None
+    if chk.model_ok and mcases:
+        mcodes = chk.coq_eval("From PG Require Import Lib.Strs Model.CoreImports Model.PyImport Model.GenModels Corr.C01.",
+                              "(modpath * spec) * package", [c["_coq"] for c in mcases], "run_models", shard=8,
+                              prelude=sym_prelude(), tag="models")
+    for c in mcases:
+        c.pop("_coq", None)
+    chk.decide(mcases, [(c & 1) for c in mcodes] if mcodes is not None else None, {},
+               "Corr.C01.run_models: gen_models_skeleton(spec from the emitter's IR) = projected skeleton of the emitted models/")
+    if mcodes is not None:
+        acyc = 0
+        for c, code in zip(mcases, mcodes):
+            if not (code >> 2) & 1:
+                acyc += 1
+                if (code >> 1) & 1:
+                    chk.violation(c, "acyclic_refs and names_ok hold but pkg_ok_with (models_order) (gen_models_skeleton spec) is false "
+                                     "(instance of C01_models_partial fails)")
+        chk.cov["input_distribution"]["models_skeleton"] = {"cases": len(mcases), "outside_fragment": outside, "acyclic": acyc,
+                                                            "cyclic": len(mcases) - acyc}
+    chk.cov["evaluations"] += len(mcases)
     return chk.finish(
         TRUSTED,
         rule="corpus (finding witnesses) + seeded structured documents (schema DAGs with refs/arrays/maps/enums/allOf/oneOf/"
